@@ -2,4 +2,7 @@ pub mod c18;
 pub mod c19;
 pub mod c08;
 pub mod c09;
+pub mod lemmas;
+pub mod common;
+pub mod c01_units;
 mod playback_gen;
